@@ -307,6 +307,38 @@ FINAL_STATES = frozenset(
 STATES = INTERIM_STATES | FINAL_STATES
 
 
+_STATUS_PARAMETERS = (
+    "test_id",
+    "test_status",
+    "test_tags",
+    "runnable",
+    "file_name",
+    "file_bytes",
+    "eof",
+    "mime_type",
+    "route_code",
+    "timestamp",
+)
+
+
+def _status_kwargs(args, kwargs):
+    """The arguments of a `StreamResult.status` call, all as keywords.
+
+    For the stream results that look at (or change) some arguments of the
+    call on its way through: the caller may have given them positionally.
+    """
+    if len(args) > len(_STATUS_PARAMETERS):
+        raise TypeError(
+            "status() takes at most %d arguments (%d given)"
+            % (len(_STATUS_PARAMETERS), len(args))
+        )
+    for name, value in zip(_STATUS_PARAMETERS, args):
+        if name in kwargs:
+            raise TypeError(f"status() got multiple values for argument {name!r}")
+        kwargs[name] = value
+    return kwargs
+
+
 class StreamResult:
     """A test result for reporting the activity of a test run.
 
@@ -555,7 +587,8 @@ class StreamResultRouter(StreamResult):
             sink.stopTestRun()
         self._in_run = False
 
-    def status(self, **kwargs):
+    def status(self, *args, **kwargs):
+        kwargs = _status_kwargs(args, kwargs)
         route_code = kwargs.get("route_code", None)
         test_id = kwargs.get("test_id", None)
         if route_code is not None:
@@ -637,11 +670,12 @@ class StreamTagger(CopyStreamResult):
     def status(self, *args, **kwargs):
         # Work on a copy: the set belongs to the caller (it may be shared with
         # sibling results, or be a frozenset).
+        kwargs = _status_kwargs(args, kwargs)
         test_tags = set(kwargs.get("test_tags") or ())
         test_tags.update(self.add)
         test_tags.difference_update(self.discard)
         kwargs["test_tags"] = test_tags or None
-        super().status(*args, **kwargs)
+        super().status(**kwargs)
 
 
 class _TestRecord:
@@ -1894,7 +1928,7 @@ class StreamToExtendedDecorator(StreamResult):
     def status(self, test_id=None, test_status=None, *args, **kwargs):
         if test_status == "exists":
             return
-        self.hook.status(test_id=test_id, test_status=test_status, *args, **kwargs)
+        self.hook.status(test_id, test_status, *args, **kwargs)
 
     def startTestRun(self):
         self.decorated.startTestRun()
@@ -2166,10 +2200,10 @@ class TimestampingStreamResult(CopyStreamResult):
         super().__init__([target])
 
     def status(self, *args, **kwargs):
-        timestamp = kwargs.pop("timestamp", None)
-        if timestamp is None:
-            timestamp = datetime.datetime.now(utc)
-        super().status(*args, timestamp=timestamp, **kwargs)
+        kwargs = _status_kwargs(args, kwargs)
+        if kwargs.get("timestamp") is None:
+            kwargs["timestamp"] = datetime.datetime.now(utc)
+        super().status(**kwargs)
 
 
 class _StringException(Exception):
